@@ -194,7 +194,12 @@ def gen_adversarial(rng):
 def cases(rng, tier):
     n = {"quick": 150, "thorough": 5000, "search": 3000}.get(tier, 150)
     for i in range(n):
-        yield gen_musical(rng) if i % 2 == 0 else gen_adversarial(rng)
+        d = gen_musical(rng) if i % 2 == 0 else gen_adversarial(rng)
+        # the maps of a part are also queried after switching it to musical beats (compound metres count
+        # dotted beats): the measure maps must not depend on the beat mode
+        if rng.random() < 0.3:
+            d["musical_mode"] = True
+        yield d
 
 
 # ------------------------------------------------------------------ building the real Part
@@ -223,6 +228,8 @@ def build(desc):
         objs.sort(key=lambda o: -o[0])  # stable: coincident elements keep their relative order
     for t, e, o in objs:
         part.add(o, t, e)
+    if desc.get("musical_mode"):
+        part.use_musical_beat()
     return part
 
 
@@ -446,8 +453,16 @@ def evaluate(desc):
         if e:
             d_tok = "err"
         elif dv == dv:
-            d_tok = W.q(dv)
             b0, e2 = call(lambda: float(part.time_signature_map(0)[0]))
+            if desc.get("musical_mode") and not e2 and b0 == b0 and b0 > 0:
+                # with musical beats in use the beat map (hence dv) counts musical beats; the model's bar length is
+                # beats0 * d with the NOTATED beat count, so hand it the divisions per notated beat (exact rescaling)
+                mb0 = float(part.time_signature_map(0)[2])
+                dv_model = Fraction(dv) * Fraction(mb0) / Fraction(b0)
+                d_tok = W.q(dv_model)
+                dv = float(dv_model)
+            else:
+                d_tok = W.q(dv)
             if not e2 and b0 == b0:
                 s0, e0 = desc["ms"][0][0], desc["ms"][0][1]
                 pf, pq = b0 * dv, Fraction(b0) * Fraction(dv)
